@@ -6,8 +6,18 @@ import (
 
 	"github.com/spikeekips/mitum/base"
 	"github.com/spikeekips/mitum/isaac"
+	isaacstates "github.com/spikeekips/mitum/isaac/states"
 	"verifharness/vh"
 )
+
+// isaacstatesRecord: the suffrage-confirm flag of a record object
+func isaacstatesRecord(h *Hist, rid int) (isc bool, ok bool) {
+	if rid < 0 || rid >= len(h.ptrs) {
+		return false, false
+	}
+	info, found := isaacstates.VerifRecord(h.ptrs[rid])
+	return info.ISC, found
+}
 
 type validCase struct {
 	a         *aVP
@@ -118,6 +128,21 @@ func sameSet(a, b []int) bool {
 }
 
 // afterCount resolves the map-order oracles from the emitted voteproofs and applies the C04 oracle.
+// passedOracle (C05: once the ballotbox has moved past a stage point, its records are no longer consulted): no
+// voteproof is built from the records of a stage point p with !last.Before(p) at the time of the step.
+func (h *Hist) passedOracle(lastBefore isaac.LastPoint, rid int, vps []base.Voteproof) {
+	info, ok := isaacstatesRecord(h, rid)
+	for _, vp := range vps {
+		if _, emb := h.w.vpid[vp.ID()]; emb {
+			continue
+		}
+		isc := ok && info
+		if !lastBefore.IsZero() && !lastBefore.Before(vp.Point(), isc) {
+			h.fail("vp-from-passed-stage-point", fmt.Sprintf("voteproof %v %s built while last point is %v (majority=%v)", vp.Point(), vp.Result(), lastBefore.StagePoint, lastBefore.IsMajority()))
+		}
+	}
+}
+
 func (h *Hist) afterCount(st *step, rid int, ret, vps []base.Voteproof, viaChannelOnly bool) {
 	if !viaChannelOnly && len(ret) != len(vps) {
 		h.fail("returned-and-emitted-differ", fmt.Sprintf("returned %d, channel %d", len(ret), len(vps)))
@@ -163,6 +188,7 @@ func (h *Hist) doCount(rid int, elapsed bool, p *pending) {
 	h.steps = append(h.steps, st)
 	h.desc = append(h.desc, fmt.Sprintf("count rec=%d elapsed=%v deferred=%v", rid, elapsed, p != nil))
 	h.setElapsed(elapsed)
+	lastBefore := h.box.LastPoint()
 	var ret []base.Voteproof
 	if p != nil {
 		ret = p.f()
@@ -170,6 +196,7 @@ func (h *Hist) doCount(rid int, elapsed bool, p *pending) {
 		ret = h.box.VerifCountRecord(h.ptrs[rid])
 	}
 	vps := h.drain()
+	h.passedOracle(lastBefore, rid, vps)
 	h.afterCount(st, rid, ret, vps, false)
 	h.observe(st, false, false, vps, len(vps) > 0)
 }
@@ -179,8 +206,10 @@ func (h *Hist) doHeld(rid int, elapsed bool) {
 	h.steps = append(h.steps, st)
 	h.desc = append(h.desc, fmt.Sprintf("held rec=%d elapsed=%v", rid, elapsed))
 	h.setElapsed(elapsed)
+	lastBefore := h.box.LastPoint()
 	ret := h.box.VerifCountHolded(h.ptrs[rid])
 	vps := h.drain()
+	h.passedOracle(lastBefore, rid, vps)
 	h.afterCount(st, rid, ret, vps, false)
 	h.observe(st, false, false, vps, false)
 }
